@@ -164,6 +164,7 @@ class ShardStats:
         self.samples = []
         self.excluded = Counter()
         self.last = None
+        self.first_fail = None  # (bucket, msg, descriptor) of the first violation raised in this shard
 
 
 def _make_body(facet, stats, suppressed):
@@ -176,6 +177,8 @@ def _make_body(facet, stats, suppressed):
                 stats.excluded[v.bucket] += 1
                 stats.evals += 1
                 return
+            if stats.first_fail is None:
+                stats.first_fail = (v.bucket, v.msg, desc)
             raise
         except Discard as d:
             stats.discards[d.why] += 1
@@ -193,6 +196,8 @@ def _make_body(facet, stats, suppressed):
                 stats.excluded[v.bucket] += 1
                 stats.evals += 1
                 return
+            if stats.first_fail is None:
+                stats.first_fail = (v.bucket, v.msg, desc)
             raise v
         stats.evals += 1
         for c in info.get("classes", ()):
@@ -277,11 +282,20 @@ def _run_shard(pid, facet_name, tier, seed, shard, nshards, suppressed, shrink):
         except HarnessError:
             raise
         except Exception as e:
-            # Hypothesis' own errors (Flaky, FailedHealthCheck, Unsatisfiable ...)
-            raise HarnessError(
-                f"facet {facet_name}: {type(e).__name__}: {e}\n"
-                + "".join(traceback.format_exception(e))
-            )
+            flaky = type(e).__name__ in ("Flaky", "FlakyFailure", "FlakyReplay")
+            if flaky and stats.first_fail is not None:
+                # the same generated input violated the property once and behaved differently when Hypothesis
+                # repeated it in this process: the outcome depends on state left behind by earlier operations.
+                # That is a violation in its own right (the first failing input is reported; replayed alone in a
+                # fresh process it may pass).
+                b, m, d0 = stats.first_fail
+                failure = {"bucket": b, "message": m + " [not repeatable within the process: depends on state left by earlier cases]", "descriptor": d0}
+            else:
+                # Hypothesis' own errors (FailedHealthCheck, Unsatisfiable ...)
+                raise HarnessError(
+                    f"facet {facet_name}: {type(e).__name__}: {e}\n"
+                    + "".join(traceback.format_exception(e))
+                )
     return {
         "facet": facet_name,
         "shard": shard,
